@@ -18,6 +18,9 @@ import (
 )
 
 type WeldFar struct {
+	// Mul > 0: the second triangle is (-1, +Mul) cells away along the axis pair Axes marks with -1 / +1
+	// (the offset at which a key folded as (x*Mul + y) takes two cells for one)
+	Mul  int64  `json:"mul,omitempty"`
 	K    int    `json:"k"`    // the second triangle is 2^k cells away
 	Axes [3]int `json:"axes"` // per axis: -1, 0, +1 times the offset
 	Prec int    `json:"prec"` // decimal places of the weld
@@ -34,7 +37,16 @@ func weldFarMesh(wf WeldFar) (modeling.Mesh, [][3]vector3.Float64) {
 		for c, b := range base {
 			var p [3]float64
 			for a := 0; a < 3; a++ {
-				p[a] = (b[a] + float64(t)*float64(wf.Axes[a])*off) * cellSize
+				d := float64(wf.Axes[a]) * off
+				if wf.Mul > 0 {
+					d = 0
+					if wf.Axes[a] < 0 {
+						d = -float64(wf.K)
+					} else if wf.Axes[a] > 0 {
+						d = float64(wf.K) * float64(wf.Mul)
+					}
+				}
+				p[a] = (b[a] + float64(t)*d) * cellSize
 			}
 			tri[c] = vector3.New(p[0], p[1], p[2])
 			pos = append(pos, tri[c])
@@ -55,7 +67,7 @@ func (k checker) weldFarCase(wf WeldFar) {
 	fail := func(clause, detail string) {
 		k.c.Eval(scope, "mismatch")
 		k.c.Violate(core.Violation{Site: "modeling.Mesh.WeldByFloat3Attribute", Clause: clause, Class: class,
-			Detail: fmt.Sprintf("two triangles 2^%d cells apart along %v at precision %d: %s", wf.K, wf.Axes, wf.Prec, detail), Case: cs})
+			Detail: fmt.Sprintf("two triangles %s cells apart along %v at precision %d: %s", wfDist(wf), wf.Axes, wf.Prec, detail), Case: cs})
 	}
 	if o.Panicked {
 		fail(clCompletes, "panic: "+o.Msg)
@@ -101,5 +113,28 @@ func (k checker) weldFar() {
 			}
 		}
 	}
+	// cells that a folded key confuses: (-j, +j*M) along two axes for the multipliers hash functions use
+	muls := []int64{31, 33, 37, 131, 257, 1000, 1024, 65521, 65536, 65537, 1000003, 16777619, 2147483647, 0x9E3779B9}
+	for prec := 0; prec <= 3; prec += 3 {
+		for _, m := range muls {
+			for _, j := range []int{1, 2, 7} {
+				for _, ax := range [][3]int{{-1, 1, 0}, {0, -1, 1}, {-1, 0, 1}, {1, -1, 0}, {0, 1, -1}, {1, 0, -1}} {
+					n++
+					if !k.c.Next() {
+						continue
+					}
+					k.weldFarCase(WeldFar{Mul: m, K: j, Axes: ax, Prec: prec})
+				}
+			}
+		}
+	}
+	k.c.Bound("weld_cells_folded", fmt.Sprintf("two triangles (-j, +j*M) cells apart along every ordered axis pair, j in 1,2,7, M in %v, precisions 0 and 3", muls))
 	k.c.Bound("weld_cells_far_apart", fmt.Sprintf("%d cases: two triangles 2^k cells apart, k = 1..44, 8 axis patterns, precisions 0..3", n))
+}
+
+func wfDist(wf WeldFar) string {
+	if wf.Mul > 0 {
+		return fmt.Sprintf("(-%d, +%d*%d)", wf.K, wf.K, wf.Mul)
+	}
+	return fmt.Sprintf("2^%d", wf.K)
 }
